@@ -53,7 +53,20 @@ def model_summary(shx):
     rest = []
     for r in shx.restraints:
         rest.append((r.name, tuple(x.upper() for x in r.atoms), r.residue_class.upper() if r.residue_class else '', tuple(r.residue_number)))
-    views = {'has_element': [shx.sfac_table.has_element(e) for e in shx.sfac_table.elements_list], 'sum_formula': shx.sum_formula.upper(),
+    # named attributes of the instruction objects (not only their text): the refinement method and cycle number, and every slot of the C16 table
+    from props.c16 import ATTRS
+    attrs = []
+    if shx.cycles is not None:
+        attrs.append(('cycles', bool(shx.cycles.cgls), shx.cycles.number))
+    for x in shx._reslist:
+        names = ATTRS.get(type(x).__name__.upper()) if not isinstance(x, str) else None
+        if names:
+            vals = []
+            for nm in names:
+                v = getattr(x, nm, None)
+                vals.append(round(float(v), 9) if isinstance(v, (int, float)) and not isinstance(v, bool) else (None if v in (None, '', []) else str(v).upper()))
+            attrs.append((type(x).__name__.upper(), tuple(vals)))
+    views = {'attributes': attrs, 'has_element': [shx.sfac_table.has_element(e) for e in shx.sfac_table.elements_list], 'sum_formula': shx.sum_formula.upper(),
              'sum_formula_exact': shx.sum_formula_exact.upper(), 'elements_of_atoms': [a.element.upper() for a in shx.atoms.all_atoms]}
     return {'atoms': atoms, 'instr': instr, 'restraints': rest, 'hklf': shx.hklf is not None, 'end': shx.end, 'views': views,
             'fvars': [round(float(x.fvar_value), 9) for x in shx.fvars.fvars], 'sfac': [e.upper() for e in shx.sfac_table.elements_list]}
